@@ -49,9 +49,10 @@ P = {
     "signature": signature,
     "nontrivial": nontrivial,
     "rule": "manager level: behaviours = one per transition of the abstract (routes, VTEPs, host metadata, parent-known) graph "
-            "over a VXLAN/no-encap block of a same-subnet node, a local block and a local workload//32 (TLC, VIEW + "
+            "over a VXLAN/no-encap block of a same-subnet node that can also flip to a LOCAL block by a bare RouteUpdate (owner "
+            "change without RouteRemove, both directions), a local block and a local workload//32 (TLC, VIEW + "
             "ACTION_CONSTRAINT; thinned by seed in quick tier), TLC random walks of 30 messages over all three pool kinds, "
-            "borrowed addresses and tunnel addresses, and seeded random histories over 3 remote nodes (2 in the local "
+            "borrowed addresses, tunnel addresses and local<->remote owner flips of every pool kind, and seeded random histories over 3 remote nodes (2 in the local "
             "subnet), 4 blocks whose pools change kind and cross-subnet mode, node addresses and VTEPs changing, local "
             "information arriving late or being withdrawn; all three managers share one recording route table; a trace is "
             "non-trivial when an observation follows both a SameSubnet and a non-SameSubnet remote route of an encapsulated "
